@@ -231,8 +231,8 @@ Proof.
 Qed.
 
 (* ---------- every operation ---------- *)
-Definition op_time (t : N) (o : op) : N := match o with OSend now _ => now | _ => t end.
-Definition op_time_ok (t : N) (o : op) : Prop := match o with OSend now _ => t <= now /\ now <> 0 | _ => True end.
+Definition op_time (t : N) (o : op) : N := match o with OSend now _ => now | ORestart now => now | _ => t end.
+Definition op_time_ok (t : N) (o : op) : Prop := match o with OSend now _ => t <= now /\ now <> 0 | ORestart now => t <= now | _ => True end.
 
 Lemma E_cfg c c' t p : c_seg c' = c_seg c -> E c t p -> E c' t p.
 Proof. intros Ec [H1 H2 H3 H4 H5 H6]. constructor; try assumption. rewrite Ec. exact H4. Qed.
@@ -285,7 +285,8 @@ Proof.
   - (* save *)
     destruct (CL_save c p (k_seg _ HK) (conj A1 A2)) as [C1 C2]. constructor; try assumption; rewrite save_all; assumption.
   - (* restart *)
-    destruct (CL_restart c now p HK (conj A1 A2)) as [C1 C2]. constructor; try assumption; rewrite restart_all; assumption.
+    destruct (CL_restart c now p HK (conj A1 A2)) as [C1 C2]. constructor; try assumption; rewrite restart_all; [assumption|].
+    intros m Hm. specialize (A4 m Hm). lia.
   - (* purge *)
     constructor; try assumption.
     + cbn [purge p_segs]. intros A l EA s Hs. destruct A as [|a A']; [contradiction|]. cbn in EA. injection EA as _ EA. destruct A'; discriminate.
